@@ -105,10 +105,10 @@ class Ctx:
 QUICK = [
     {"name": "x86_64/std/debug", "args": [], "flags": ""},
     {"name": "x86_64/all-features/debug", "args": ["--all-features"], "flags": ""},
+    {"name": "x86_64/nofeat/debug", "args": ["--no-default-features"], "flags": ""},
 ]
 
 THOROUGH = QUICK + [
-    {"name": "x86_64/nofeat/debug", "args": ["--no-default-features"], "flags": ""},
     {"name": "x86_64/serde/debug", "args": ["--no-default-features", "--features", "serde"], "flags": ""},
     {"name": "x86_64/arbitrary/debug", "args": ["--no-default-features", "--features", "arbitrary"], "flags": ""},
     {"name": "x86_64/std/nodebug", "args": [], "flags": "-Cdebug-assertions=off"},
